@@ -311,6 +311,10 @@ func (p *poller) readWriteLoop() {
 						} else {
 							g.onRead(c)
 						}
+					} else if isOneshot && ev.Events&epollEventsWrite != 0 {
+						// EPOLLONESHOT disabled the fd when this event was
+						// reported and there is no reading part to re-arm it.
+						c.ResetPollerEvent()
 					}
 
 					if ev.Events&epollEventsError != 0 {
